@@ -27,7 +27,8 @@ LEVEL_TEXT = ('For each layout every random outcome of the real move_obstacles /
               '"moved to a 4-neighbour that was floor (or vacated)" or "stayed with no always-floor neighbour"; over the '
               'outcome set every floor neighbour of an obstacle is some outcome\'s destination and an isolated obstacle with '
               'a free neighbour never stays. Teleport: from a telepod with partners the destination set equals the partner '
-              'set; otherwise nothing changes and nothing raises. All layouts of grids up to 2x3 are enumerated each run.')
+              'set; otherwise nothing changes and nothing raises. All layouts of grids up to 2x3 are enumerated each run.'
+              ' Also: palette-built layouts, derived obstacle classes, telepods of all five colours; when a draw cannot be enumerated (or the enumeration is cut off) 300-400 real generators are sampled instead.')
 LEVEL_NOTE = ('Trusted: scripted_rng.py reproduces the Generator methods the functions use (choice(int), choice(size, '
               'replace=False), integers, shuffle); an implementation using another method falls back to a seeded real '
               'generator and the completeness part is then reported inconclusive. Uniformity is not claimed.')
